@@ -67,6 +67,10 @@ func (fc *FuncCtx) load(fr *Frame, st *State, lv *LVal, pos token.Pos) Val {
 		st.assume(typeInv(lv.Typ, v, st.alloc))
 		return Val{T: v}
 	case lvElem:
+		if tb := fc.p.tableOfSlice(lv.Slice); tb != nil {
+			fc.note("table " + tb.Name + " read as an immutable constant (checked syntactically: no writer, the slice does not escape)")
+			return Val{T: tb.valTerm(lv.Idx)}
+		}
 		v := At(Select(st.H(fc.p, lv.Heap), SBase(lv.Slice)), SOff(lv.Slice), lv.Idx)
 		st.assume(typeInv(lv.Typ, v, st.alloc))
 		return Val{T: v}
@@ -83,6 +87,9 @@ func (fc *FuncCtx) load(fr *Frame, st *State, lv *LVal, pos token.Pos) Val {
 				st.assume(typeInv(lv.Typ, v, st.alloc))
 				fc.linkNestedTable(st, tb, v)
 				return Val{T: v}
+			}
+			if !tb.IsMap {
+				return Val{T: tb.SliceVal()}
 			}
 			return Val{T: tb.Ref}
 		}
@@ -119,6 +126,9 @@ func (fc *FuncCtx) store(fr *Frame, st *State, lv *LVal, v Val, pos token.Pos) {
 		_, el, _ := h.Sort.arrayParts()
 		st.setH(lv.Heap, Store(h, lv.Ref, coerceT(v.T, el)))
 	case lvElem:
+		if tb := fc.p.tableOfSlice(lv.Slice); tb != nil {
+			unsupp("store to an element of table %s", tb.Name)
+		}
 		m := st.H(fc.p, lv.Heap)
 		row := Select(m, SBase(lv.Slice))
 		_, el, _ := row.Sort.arrayParts()
@@ -857,6 +867,13 @@ func (fc *FuncCtx) convert(fr *Frame, st *State, x *ssa.Convert) {
 				r = XVal(r)
 			}
 			tr := Ite(Ge(r, RealLitStr("0")), mk("to_int", SInt, r), Neg(mk("to_int", SInt, Neg(r))))
+			if len(r.Args) > 0 {
+				// name the result (definitional extension): keeps the usually nonlinear real term out of
+				// every later index bound and quantifier guard
+				c := Fresh("f2i", SInt)
+				st.assume(Eq(c, tr))
+				tr = c
+			}
 			fr.regs[x] = Val{T: tr}
 		case fb.Info()&types.IsFloat != 0 && tb.Info()&types.IsFloat != 0:
 			fr.regs[x] = xv
